@@ -17,7 +17,10 @@ def _c17_ints(s):
 
 def _c17_case(c):
     p = c.split(" ")
-    if p[0] in ("T", "A", "W", "V", "U", "u", "X"):
+    if p[0] in ("T", "A", "W", "w", "V", "U", "u", "X", "Q", "Y", "y", "Z"):
+        tok = None
+        if p[0] in ("Q", "Z", "w"):
+            tok, p = p[-2:], p[:-2]
         _, pred, mr, mn, mx, tbl, dflt, cn, kind, data, script, opts = p
         man = ""
         if kind[0] in "MmIi":
@@ -37,9 +40,22 @@ def _c17_case(c):
         if cn != "-":
             t, k = cn.split(":")
             cancel, deadline = int(t), k == "d"
-        return {"op": p[0], "pred": "" if pred == "-" else pred, "max_retry": int(mr), "min": int(mn), "max": int(mx), "tbl": _c17_ints(tbl), "dflt": int(dflt),
+        extra = {}
+        if tok:
+            tbehs = []
+            if tok[1] != "-":
+                for b in tok[1].split(";"):
+                    o, r, l = b.split("/")
+                    d = _c17_out(o)
+                    d["read"] = -1 if r == "*" else int(r)
+                    d["lat"] = int(l)
+                    tbehs.append(d)
+            extra = {"token_post": tok[0][0] == "P", "token_script": tbehs}
+        return {**extra, "op": p[0], "pred": "" if pred == "-" else pred, "max_retry": int(mr), "min": int(mn), "max": int(mx), "tbl": _c17_ints(tbl), "dflt": int(dflt),
                 "cancel": cancel, "deadline": deadline, "body": kind, "manifest": man, "unknown_len": unknown, "method": method, "pre_auth": preauth,
                 "data": "" if data == "-" else data, "big_len": 0, "script": behs}
+    if p[0] == "I":
+        return {"op": "I", "input": unhex(p[1])}
     if p[0] == "D":
         _, pred, mr, mn, mx, tbl, dflt, att, out = p
         return {"op": "D", "which": "P", "pred": "" if pred == "-" else pred, "max_retry": int(mr), "min": int(mn), "max": int(mx), "tbl": _c17_ints(tbl),
@@ -55,17 +71,27 @@ def _c17_case(c):
 # ---- in-Coq re-evaluation of a sample (thorough tier): cross-checks extraction + OCaml driver ----
 
 _VM_PRELUDE = """From Coq Require Import QArith.
-From Oras Require Import Base.Prelude Generated.GC17 Model.Retry Proofs.Retry.
+From Oras Require Import Base.Prelude Base.RetryTypes Generated.GC17 Model.Retry Proofs.Retry.
 Open Scope Z_scope.
-Inductive rshow := SResp (c : Z) | SErr (a b c : bool) | SPred | SCtx | SPanic | SNotRew | SGetBody | SFuel.
+Inductive rshow := SResp (c : Z) | STok (c : Z) | SErr (a b c : bool) | SPred | SCtx | SPanic | SNotRew | SGetBody | SFuel.
 Definition show_res (r : result) : rshow :=
   match r with
-  | RResp c _ => SResp c | RErr a b c => SErr a b c | RPredErr => SPred | RCtx => SCtx | RPanic => SPanic
+  | RResp c _ => SResp c | RTokenResp c => STok c | RErr a b c => SErr a b c | RPredErr => SPred | RCtx => SCtx | RPanic => SPanic
   | RNotRewindable => SNotRew | RGetBodyFailed => SGetBody | RFuel => SFuel
   end.
 Definition show_atts (orig : str) (tr : list event) : list (Z * option nat) :=
   map (fun a => (fst a, if is_prefix (snd a) orig then Some (length (snd a)) else None)) (attempts tr).
 Definition show_T (orig : str) (o : rt_out) := (show_res (o_res o), o_time o, show_atts orig (o_trace o)).
+Definition show_K (orig form : str) (a : authk_out) :=
+  (show_res (ak_res a), ak_time a, show_atts orig (ak_first a), show_atts form (ak_token a), show_atts orig (ak_second a)).
+Definition show_la (orig : str) (l : list (Z * str)) : list (Z * option nat) :=
+  map (fun a => (fst a, if is_prefix (snd a) orig then Some (length (snd a)) else None)) l.
+Definition show_Z (orig form : str) (u : pushk_out) :=
+  (show_res (uk_res u), uk_time u,
+   show_atts [] (ak_first (uk_post u)), show_atts [] (ak_second (uk_post u)),
+   match uk_put u with Some a => show_atts orig (ak_first a) | None => [] end,
+   match uk_put u with Some a => show_atts orig (ak_second a) | None => [] end,
+   show_la form (attempts (ak_token (uk_post u)) ++ match uk_put u with Some a => attempts (ak_token a) | None => [] end)).
 Definition show_A (orig : str) (a : auth_out) :=
   (show_res (a_res a), a_time a, show_atts orig (a_first a), show_atts orig (a_second a), show_atts orig (a_third a)).
 """
@@ -117,6 +143,8 @@ def _vm_atts(s):
 def _vm_res(s):
     if s.startswith("RESP"):
         return "SResp %s" % _z(s[4:])
+    if s.startswith("ETOKEN"):
+        return "STok %s" % _z(s[6:])
     if s.startswith("EERR"):
         return "SErr %s %s %s" % tuple("true" if c == "1" else "false" for c in s[4:7])
     return {"EPRED": "SPred", "ECTX": "SCtx", "PANIC": "SPanic", "ENOTREWINDABLE": "SNotRew", "EGETBODY": "SGetBody", "FUEL": "SFuel"}[s]
@@ -124,7 +152,10 @@ def _vm_res(s):
 
 def _vm_goal(c, o):
     p = c.split(" ")
-    if p[0] in ("T", "A", "W", "V"):
+    tok = None
+    if p[0] in ("Q", "Z"):
+        tok, p = p[-2:], p[:-2]
+    if p[0] in ("T", "A", "W", "V", "Q", "Z"):
         _, pred, mr, mn, mx, tbl, dflt, cn, kind, data, script, _opts = p
         pol = "(table_policy %s %s %s %s [%s] %s)" % (_vm_pred(pred), _z(mr), _z(mn), _z(mx),
                                                      "; ".join(_z(x) for x in _c17_ints(tbl)), _z(dflt))
@@ -149,6 +180,20 @@ def _vm_goal(c, o):
             cancel = "(Some (%s, %s))" % (_z(t), "true" if k == "d" else "false")
         f = dict(x.split("=") for x in o.split(" ")[1:])
         res = _vm_res(o.split(" ")[0])
+        if tok:
+            tb = "(mkBody KNone [])" if tok[0] == "G" else "(mkBody KReplay %s)" % _bytes(tok[0][1:])
+            tbehs = []
+            if tok[1] != "-":
+                for b in tok[1].split(";"):
+                    oo, r, l = b.split("/")
+                    tbehs.append("mkBeh %s %s %s" % (_vm_out(oo), "None" if r == "*" else "(Some %s%%nat)" % r, _z(l)))
+            tsc = "[" + "; ".join(tbehs) + "]"
+            if p[0] == "Q":
+                return "let bd := %s in let tb := %s in show_K (bdata bd) (bdata tb) (auth_do_tok %s %s bd %s tb %s) = (%s, %s, %s, %s, %s)" % (
+                    bd, tb, pol, cancel, sc, tsc, res, _z(f["end"]), _vm_atts(f["first"]), _vm_atts(f["token"]), _vm_atts(f["second"]))
+            po, pu = f["post"].split("|"), f["put"].split("|")
+            return "let bd := %s in let tb := %s in show_Z (bdata bd) (bdata tb) (blob_push_tok true %s %s bd %s tb %s) = (%s, %s, %s, %s, %s, %s, %s)" % (
+                bd, tb, pol, cancel, sc, tsc, res, _z(f["end"]), _vm_atts(po[0]), _vm_atts(po[1]), _vm_atts(pu[0]), _vm_atts(pu[1]), _vm_atts(f["tok"]))
         if p[0] == "T":
             return "let bd := %s in show_T (bdata bd) (round_trip %s %s bd (init_state bd) %s 0) = (%s, %s, %s)" % (
                 bd, pol, cancel, sc, res, _z(f["end"]), _vm_atts(f["first"]))
@@ -186,7 +231,15 @@ def _c17_vm_sample(d, tier, coq, build, want=300):
         for l in f:
             i, _, o = l.rstrip("\n").partition(" ")
             outs[i] = o
-    quota = {"T": 90, "A": 60, "W": 50, "D": 40, "B": 60}
+    # floor on the model side: the acceptor must judge most of the exponential-backoff points
+    nb = sum(1 for l in open(os.path.join(d, "cases.txt")) if l.split(" ", 2)[1:2] == ["B"])
+    with open(os.path.join(d, "cases.txt")) as f:
+        bids = {l.split(" ", 1)[0] for l in f if l.split(" ", 2)[1:2] == ["B"]}
+    unj = sum(1 for i in bids if outs.get(i, "").startswith("UNJUDGED"))
+    floor_msgs = []
+    if nb and unj * 10 > nb:
+        floor_msgs.append("model leaves %d of %d exponential-backoff points unjudged (more than 10%%)" % (unj, nb))
+    quota = {"T": 80, "A": 50, "W": 40, "D": 30, "B": 50, "Q": 30, "Z": 20}
     if small:
         quota = {k: v // 5 for k, v in quota.items()}
     total, stride, got = collections.Counter(), collections.Counter(), collections.Counter()
@@ -224,14 +277,14 @@ def _c17_vm_sample(d, tier, coq, build, want=300):
         return ["vm_compute re-evaluation of %d sampled cases inside Coq disagrees with the extracted runner (or does not type-check): %s"
                 % (len(goals), p.stdout[-1200:])]
     if len(goals) < want // 2:
-        return ["vm_compute sample too small: %d goals" % len(goals)]
-    return []
+        return ["vm_compute sample too small: %d goals" % len(goals)] + floor_msgs
+    return floor_msgs
 
 
 CONFIG = {
     "properties_file": "Properties/C17.v",
     "proof_files": ["Base/Prelude.v", "Proofs/Retry.v"],
-    "model_files": ["Generated/GC17.v", "Model/Retry.v"],
+    "model_files": ["Base/RetryTypes.v", "Generated/GC17.v", "Model/Retry.v"],
     "extract": "XC17.v",
     "ml_main": "c17_main.ml",
     "harness": "c17",
@@ -243,7 +296,10 @@ CONFIG = {
         "transport errors are modelled by what the error VALUE returned by the base transport reports: implements net.Error?, Timeout(), Temporary() (DefaultPredicate uses a type assertion, not errors.As); the harness returns 19 shapes (plain, custom net.Error with all four flag combinations, *url.Error / *net.OpError / *os.SyscallError / syscall.Errno EMFILE, ENFILE, EINTR, ETIMEDOUT, ECONNREFUSED / *net.DNSError temporary and timeout / fmt-wrapped) and checks at start-up that each value reports the declared flags; the error branch of DefaultPredicate is translated from policy.go (kind errpred); the oracle states the documented rule: only errors whose chain contains a timeout may be retried",
         "custom Retryable predicates (harness and model): a status table, a rule for other statuses and one for transport errors, each retry / stop / fail; a failing predicate returns the transport's error for errors and its own error for responses (model: RPredErr); the theorems hold for every predicate",
         "blobStore.Push is modelled as POST (no body) then, on 202, PUT with the blob; the PUT passes through the auth client unchanged iff the POST's last request carried Authorization (resp.Request as set by the transport); empty token cache; Location handling, digest query and mounting are C13's",
-        "strconv.ParseInt(s, 10, 64) is hand-modelled (parse_int64: sign, decimal digits, saturation on range errors, 0 on syntax errors) and compared with the implementation on a pool of Retry-After values",
+        "strconv.ParseInt(s, 10, 64) is hand-modelled (parse_int64: sign, decimal digits, ParseUint's early return at the point of uint64 overflow, saturation to int64, 0 on syntax errors) and tied to the library by its own correspondence stream (op I: 3000 / 200000 random and boundary strings per run) besides the Retry-After pool",
+        "the token request of a Bearer challenge (fetchDistributionToken GET / fetchOAuth2Token POST through the same retrying client) is inside the model for the cold-cache auth client (auth_do_tok, op Q: scripted token service, answers other than 200 end Do with the token service's error, fetch before rewind as in the source); for the cold-cache blob push (blob_push_tok, op Z: the POST's and the PUT's token requests, the token service's script shared between them), for the manifest push through the auth client (op Q with M) and for the warm Bearer cache (auth_do_tokw_at, op w: the fresh token of the third send); in the remaining flows (ops A W V U X Y M I) the token service answers 200 at once -- C17_token_instant_refines proves that the coarser model is the finer one for such a token service; the JSON decoding of the token answer and the Www-Authenticate parsing (parseChallenge) are not modelled (fixed well-formed answers; C16's)",
+        "translated from the sources on every run (layer T; a change of shape is reported, a change of content re-checks the proofs): GenericPolicy.Retry statement by statement (retrydecision), both branches of DefaultPredicate (statuspred, errpred), the arithmetic and the Retry-After constants of ExponentialBackoff (backoffexprs) and its jitter guard (guardedcall), the rewind decisions of auth.rewindRequestBody and of Transport.RoundTrip (rewindchain), the ctx.Err() re-check of the pause select (timerctxcheck), the status constants of auth.Client.Do / fetch*Token / blobStore.Push, completePushAfterInitialPost, Mount / manifestStore.push (statuscmps), the DefaultPolicy numbers; hand-written and tied by correspondence + AST-hash anchors (34 functions): the loop of Transport.RoundTrip, the re-send skeleton of auth.Client.Do, blob push / mount / manifest push composition",
+        "the net/http facts below are re-checked at the start of every harness run against the toolchain in use (checkLibraryFacts: NewRequest's GetBody/ContentLength for *bytes.Reader, unknown readers, ReadClosers and nil; Clone shares Body and GetBody; context.DeadlineExceeded is a net.Error with Timeout(), context.Canceled is not; Client.Do passes Body/GetBody/ContentLength through)",
         "net/http: http.Client.Do passes the request to the RoundTripper unchanged for the status codes used (no 3xx), Request.Clone shares Body and GetBody, NewRequest installs GetBody for *bytes.Reader; url.Error unwrapping; context.DeadlineExceeded is a net.Error with Timeout()=true",
         "the auth client is modelled as far as re-sending goes: first send; on 401 with a Basic/Bearer challenge rewind and re-send (empty token cache), or re-send with the cached token and, if refused, once more with a fresh token (warm Bearer cache); token fetches are served at once by the scripted transport and are not part of the trace; credential, scope and cache logic is C16's",
         "a float64 below -2^63 does not convert to a positive int64 (true on amd64/arm64); hypothesis of the acceptor-completeness theorem only",
@@ -254,8 +310,8 @@ CONFIG = {
         "timing: the scripted base transport reads the body at once and then waits its latency on the fake clock of testing/synctest; the context never ends at the instant a timer of positive length fires (cancel instants odd, all other instants even); zero-length pauses and contexts that are over before the call are generated: there the timer and ctx.Done are ready together, and the current source (timer case re-checks ctx.Err(), fix 318fd40) ends the call either way; a request whose context has ended is answered by the scripted transport with the context's error at once, as net/http's transport does",
         "manifestStore.push buffering is modelled as 'a one-shot body becomes replayable iff the client is *auth.Client' and exercised with a non-indexed manifest media type; the digest/size verification of cas.Memory is C05's",
     ],
-    "level_text": "Coq theorems for every script of server behaviours, body kind/size, policy parameter set, attempt number and cancellation instant: each send makes between 1 and MaxRetry+1 attempts; every pause GenericPolicy.Retry computes and every pause the transport makes lies in [MinWait, MaxWait] (Retry-After on 429 honoured within them); a non-retryable answer (for DefaultPredicate: anything but 408/429/0/5xx and net.Error values reporting Timeout() -- Temporary() alone is not retried; both branches regenerated from policy.go) is returned after exactly one attempt; on every attempt of the retry transport and of the auth client's re-send the registry receives exactly the prefix it reads of the complete original body (the whole body when it reads to the end); a body without a working GetBody is sent once and the call ends with that answer (transport) or the rewind error (auth client); with a context ending at tc every attempt but the first of a send starts strictly before tc, the call is over at tc, and a pause the context ends in (or that starts after it ended: zero pauses, contexts over from the start) ends the call -- transport, auth client (all sends) and blob push -- with the context's error at that instant, without any hypothesis on the policy (defect: the original select could go on attempting after the context ended when the pause was zero; fixed 318fd40); on the whole trace every answer but the last was retryable and the call returns the last answer; ExponentialBackoff is total on the current source (refuted with a witness for the original source, defect F7, fixed). The model is tied to the code by regenerated constants (DefaultPolicy numbers, DefaultPredicate status branch, jitter guard), by a correspondence run of real retry.Transport / auth.Client / Repository manifest push over a scripted transport under synctest's fake clock (exact attempt instants, per-attempt received bytes), and by an independent oracle.",
-    "level_note": "oracle-only (no theorem, not in the model): headers of re-sent requests (method, URL, Content-Type, Content-Length: clause request-changed), token requests of the OAuth2/distribution flows through the same retrying client (scripted token service), net/http's real transport (httptest, 1-8 MiB bodies, answers before the body is read), retry.DefaultPolicy end to end incl. cancellation, bodies over 64 KiB; net.Error classification of Go error values is declared per shape by the harness (self-checked) and abstracted to three booleans in the model; blob push modelled for an empty token cache; float64 arithmetic and the random jitter of ExponentialBackoff are modelled with exact rationals and an acceptor with rounding allowance; auth client modelled only as far as re-sending goes (cold cache, warm Bearer cache); net/http client plumbing, strconv.ParseInt and synctest are trusted/hand-modelled (see assumptions)",
+    "level_text": "Coq theorems for every script of server behaviours, body kind/size, policy parameter set, attempt number and cancellation instant: each send makes between 1 and MaxRetry+1 attempts; every pause GenericPolicy.Retry computes and every pause the transport makes lies in [MinWait, MaxWait] (Retry-After on 429 honoured within them); a non-retryable answer (for DefaultPredicate: anything but 408/429/0/5xx and net.Error values reporting Timeout() -- Temporary() alone is not retried; both branches regenerated from policy.go) is returned after exactly one attempt; on every attempt of the retry transport and of the auth client's re-send the registry receives exactly the prefix it reads of the complete original body (the whole body when it reads to the end); a body without a working GetBody is sent once and the call ends with that answer (transport) or the rewind error (auth client); with a context ending at tc every attempt but the first of a send starts strictly before tc, the call is over at tc, and a pause the context ends in (or that starts after it ended: zero pauses, contexts over from the start) ends the call -- transport, auth client (all sends) and blob push -- with the context's error at that instant, without any hypothesis on the policy (defect: the original select could go on attempting after the context ended when the pause was zero; fixed 318fd40); on the whole trace every answer but the last was retryable and the call returns the last answer; Transport.RoundTrip, the whole cold auth stack (first send, token request, re-send) and the whole blob push (POST, PUT, their token requests) refine stateless specifications (spec_send / spec_auth / spec_push: result, end instant and every attempt's instant and received bytes) for replayable bodies without cancellation; the token request of a Bearer challenge carries its whole form on every attempt, is bounded and cancellable like any send, and its failure ends Do; ExponentialBackoff is total on the current source (refuted with a witness for the original source, defect F7, fixed). The model is tied to the code by regenerated constants (DefaultPolicy numbers, DefaultPredicate status branch, jitter guard), by a correspondence run of real retry.Transport / auth.Client / Repository manifest push over a scripted transport under synctest's fake clock (exact attempt instants, per-attempt received bytes), and by an independent oracle.",
+    "level_note": "oracle-only (no theorem, not in the model): headers of re-sent requests (method, URL, Content-Type, Content-Length: clause request-changed), token requests in the warm-cache / blob-push / manifest-push flows (served at once there; modelled for the cold auth client, op Q), net/http's real transport (httptest, 1-8 MiB bodies, answers before the body is read), retry.DefaultPolicy end to end incl. cancellation, bodies over 64 KiB; net.Error classification of Go error values is declared per shape by the harness (self-checked) and abstracted to three booleans in the model; blob push modelled for an empty token cache and for a cache holding the push's own token (X); mount fallback (Y/y) as a blob push with a one-shot PUT; float64 arithmetic and the random jitter of ExponentialBackoff are modelled with exact rationals and an acceptor with rounding allowance; auth client modelled only as far as re-sending goes (cold cache, warm Bearer cache); net/http client plumbing, strconv.ParseInt and synctest are trusted/hand-modelled (see assumptions)",
     "technique": "machine-checked proof in Coq (loop invariants over the retry loop as a transition function; universal statements over policies, scripts, bodies, cancellation instants) + translator-regenerated constants/decision branch + model/implementation correspondence under testing/synctest fake time + independent oracle",
-    "explanation": "theorems about Model/Retry.v (GenericPolicy.Retry, DefaultPredicate, ExponentialBackoff, Transport.RoundTrip loop as a transition function, auth.Client.Do re-sends for a cold and a warm Bearer token cache, manifest push buffering); harness under testing/synctest fake time: exhaustive behaviour sequences (length <= 3 quick / 5 thorough) x body kinds x three stacks, every odd cancellation instant of small scripts (cancel and deadline), random scripts with partial body reads, latencies, Retry-After values, GetBody failures, unknown Content-Length, several methods, preset Authorization, bodies up to 1 MiB (oracle only), retry.DefaultPolicy end to end (oracle only), manifest pushes with one-shot readers through auth and plain clients, blob pushes (POST then PUT; exhaustive sequences up to length 4 quick / 6 thorough and random) through auth and plain clients, 19 transport-error shapes with every (net.Error, Timeout, Temporary) combination wrapped and unwrapped, custom Retryable predicates (retry/stop/fail tables), a 300-case sample re-evaluated inside Coq with vm_compute in the thorough tier, and a sweep of policy decision points (attempt 0..80, backoff, factor, jitter incl. 0/negative/tiny, bounds incl. extreme, Retry-After incl. huge/garbage) judged by an acceptor proved complete for the model; body kind http.NoBody without GetBody, warm token caches (other scope key: W; the request's own key: V; within a blob push: X), zero-length pauses and contexts that ended before the call, a scripted token service (OAuth2 POST retried), real net/http transport scenarios; oracle clauses: request-changed, real-body-truncated, body-truncated, too-many-attempts, pause-bounds, nonretryable-retried, oneshot-resent, cancel-ignored/late/result, wrong-result, backoff-panic, maxretry-ignored, retry-after",
+    "explanation": "theorems about Model/Retry.v (GenericPolicy.Retry, DefaultPredicate, ExponentialBackoff, Transport.RoundTrip loop as a transition function, auth.Client.Do re-sends for a cold and a warm Bearer token cache, manifest push buffering); harness under testing/synctest fake time: exhaustive behaviour sequences (length <= 3 quick / 5 thorough) x body kinds x three stacks, every odd cancellation instant of small scripts (cancel and deadline), random scripts with partial body reads, latencies, Retry-After values, GetBody failures, unknown Content-Length, several methods, preset Authorization, bodies up to 1 MiB (oracle only), retry.DefaultPolicy end to end (oracle only), manifest pushes with one-shot readers through auth and plain clients, blob pushes (POST then PUT; exhaustive sequences up to length 4 quick / 6 thorough and random) through auth and plain clients, 19 transport-error shapes with every (net.Error, Timeout, Temporary) combination wrapped and unwrapped, custom Retryable predicates (retry/stop/fail tables), a 300-case sample re-evaluated inside Coq with vm_compute in the thorough tier, and a sweep of policy decision points (attempt 0..80, backoff, factor, jitter incl. 0/negative/tiny, bounds incl. extreme, Retry-After incl. huge/garbage) judged by an acceptor proved complete for the model; body kind http.NoBody without GetBody, warm token caches (other scope key: W; the request's own key: V; within a blob push: X), zero-length pauses and contexts that ended before the call, a scripted token service (op Q, model-compared: GET and OAuth2 POST, exhaustive token-service sequences up to length 2/3; op K oracle only), mount fallback uploads (Y/y), strconv.ParseInt strings (I), real net/http transport scenarios; coverage floors per stream (harness exit 4 = layer R failure) and on the share of unjudged acceptor points; per-case watchdogs (synctest deadlock, wall clock, runaway request count: signature wedged); oracle clauses: request-changed, real-body-truncated, body-truncated, too-many-attempts, pause-bounds, nonretryable-retried, oneshot-resent, cancel-ignored/late/result, wrong-result, backoff-panic, maxretry-ignored, retry-after",
 }
